@@ -19,7 +19,7 @@ package seencheck
 
 //@ func seen
 //@   opaque
-//@   modifies mapof(store), atomic(*)
+//@   modifies mapof(store), atomic(*globalSeencheck.Count)
 //@   ensures has(store, hash) && store[hash] == value
 //@   ensures forall(k, string, k != hash ==> has(store, k) == old(has(store, k)) && store[k] == old(store[k]))
 
@@ -41,7 +41,7 @@ package seencheck
 //@   property C08
 //@   attr assert-all SetStatus
 //@   requires [non-nil] item != nil
-//@   modifies models.Item::status, mapof(store), atomic(*), gNode, gKey, gType, gHad, gOld
+//@   modifies models.Item::status, mapof(store), atomic(*globalSeencheck.Count), gNode, gKey, gType, gHad, gOld
 //@   after isSeen(hash)#1: gNode = items[i]; gKey = hash; gType = URLType; gHad = has(store, hash); gOld = store[hash]
 //@   loop range modifies gNode, gKey, gType, gHad, gOld
 //@   loop range let cur0 = items[rangeindex+1].status
